@@ -918,7 +918,7 @@ func builtinArrayOf(env *lisp.LEnv, args *lisp.LVal) *lisp.LVal {
 		for k, v := range input.Cells[1].Cells {
 			matched := false
 			for _, compare := range compares {
-				if applyConstraint(env, compare, v).IsNil() {
+				if applyConstraint(env, compare, v).Type != lisp.LError { // a key constraint answers its key name, not nil, on success
 					matched = true
 					break
 				}
@@ -1062,7 +1062,7 @@ func builtinHasKey(env *lisp.LEnv, args *lisp.LVal) *lisp.LVal {
 			return lisp.String(key)
 		}
 		for _, compare := range compares {
-			if applyConstraint(env, compare, val).IsNil() {
+			if applyConstraint(env, compare, val).Type != lisp.LError { // see s:of
 				matched = true
 				break
 			}
@@ -1117,7 +1117,7 @@ func builtinMayHaveKey(env *lisp.LEnv, args *lisp.LVal) *lisp.LVal {
 			return lisp.String(key)
 		}
 		for _, compare := range compares {
-			if applyConstraint(env, compare, val).IsNil() {
+			if applyConstraint(env, compare, val).Type != lisp.LError { // see s:of
 				matched = true
 				break
 			}
